@@ -1608,6 +1608,13 @@ func serviceNodesTxn(tx ReadTxn, ws memdb.WatchSet, index string, q Query) (uint
 		if idx < proxyIdx {
 			idx = proxyIdx
 		}
+		// ... and when the last instance of one of those names goes away its
+		// index row is removed; the extinction index keeps us from sliding back.
+		if res, err := catalogServiceLastExtinctionIndex(tx, &q.EnterpriseMeta, q.PeerName); err == nil {
+			if extIdx, ok := res.(*IndexEntry); ok && idx < extIdx.Value {
+				idx = extIdx.Value
+			}
+		}
 	}
 
 	return idx, results, nil
@@ -3046,6 +3053,18 @@ func checkServiceNodesTxn(tx ReadTxn, ws memdb.WatchSet, serviceName string, con
 				// fall back to the more expensive old way of watching every radix node
 				// we touch.
 				watchOptimized = false
+			}
+		}
+		if connect {
+			// A connect result mixes instances of several service names (the
+			// service's own native instances, its sidecars, gateways). When every
+			// instance of ONE of those names goes away its index row is removed,
+			// so the max over the remaining names may be lower than what this
+			// query reported before. The extinction index keeps it from sliding back.
+			if res, err := catalogServiceLastExtinctionIndex(tx, entMeta, peerName); err == nil {
+				if extIdx, ok := res.(*IndexEntry); ok {
+					idx = lib.MaxUint64(idx, extIdx.Value)
+				}
 			}
 		}
 	} else {
